@@ -92,7 +92,7 @@ pub (crate) fn bid128_div(x: &BID_UINT128, y: &BID_UINT128, rnd_mode: RoundingMo
         }
         // x is 0
         if (y.w[1] & 0x7800000000000000u64) < 0x7800000000000000u64 {
-            if (CY.w[0] == 0) && (CY.w[1] & 0x0001ffffffffffffu64) != 0x0001ffffffffffffu64 {
+            if (CY.w[0] == 0) && (CY.w[1] & 0x0001ffffffffffffu64) == 0 {
                 __set_status_flags(pfpsf, StatusFlags::BID_INVALID_EXCEPTION);
                 // x=y=0, return NaN
                 res.w[1] = 0x7c00000000000000u64;
